@@ -409,15 +409,19 @@ func nodeValues(e *engine) {
 func childMain(r *mon.Run, args []string) {
 	dir, _ := os.Getwd()
 	_ = dir
+	t0 := time.Now()
 	bootNode()
 	e := newEngine(r)
 	e.workers = 1
 	nodeValues(e)
 	e.flush()
 	r.FlushChild()
+	t1 := time.Now()
 	e.hostileBooted()
+	t2 := time.Now()
 	e.reportPanics()
 	e.flush()
+	r.Note("timing (informative, child): boot+node values %.1fs, hostile %.1fs, shrinking %.1fs", t1.Sub(t0).Seconds(), t2.Sub(t1).Seconds(), time.Since(t2).Seconds())
 	r.Count("booted_child_finished", 1)
 	r.Finish(mon.Coverage{})
 }
